@@ -155,7 +155,7 @@ def run(tier):
             mid = "b%d_%d_%d" % (m["t"], m["k"], ci)
             cases.append({"id": mid, "mode": "parse", "src": src, "label": "multibyte-offsets", "generator": "", "rules": []})
             for gi, gen in enumerate(("retain_lines", "dense:80", "readable:1")):
-                for ri, rules in enumerate(([], ["'remove_spaces'"]) if tier == "quick" else ([], ["'remove_spaces'"], ["'remove_comments'", "'compute_expression'"])):
+                for ri, rules in enumerate(([], ["'remove_spaces'"], ["'convert_index_to_field'"]) if tier == "quick" else ([], ["'remove_spaces'"], ["'convert_index_to_field'"], ["'remove_comments'", "'compute_expression'"])):
                     cases.append({"id": "%s_g%d_r%d" % (mid, gi, ri), "mode": "process", "src": src, "label": "multibyte-offsets", "generator": gen, "rules": rules})
     # (a'') glue sites (Multibyte!GlueSites x GlueSeps): two tokens that only trivia keeps apart, under the rules that delete
     #       trivia or rebuild the node, with the three generators: the output must parse again
